@@ -269,4 +269,53 @@ theorem receiveReadable_ir (C : Cfg) (hC : 0 < C.stepsMax) (P : HsP) (r : Bool) 
   · rename_i r' hne
     exact key
 
+/-! ### part 2: the writable task -/
+
+/-- **`DriverOnWritable` with a queued buffer = `Send(front, 0)`**, given that no stale `isReadable` is around:
+no exception, no assert; the engine only moves forward, strictly if it can progress; either the whole buffer is taken
+(then the handshake is finished, nothing is cached, `pendingSend` is empty) or nothing of it (then WANT_READ is cached
+and the buffer is remembered for the retry). -/
+theorem sendSomeWritable_hs (C : Cfg) (hC : 1 < C.stepsMax) (P : HsP) (r : Bool) (buf : Bytes) (hb : buf ≠ [])
+    (s : St Hs Chan) (hi : SideInv P r buf (nf s)) (hir : s.g.isReadable = false) :
+    ∃ k s', sendSomeWritable C (chanWorld r) (engine P) s buf = (.ok k, s') ∧ SideInv P r buf (nf s') ∧
+      Tr P r s.e s.w s'.e s'.w ∧ (CanProg r s.e s.w → work P s'.e < work P s.e) ∧ Tight (nf s') ∧
+      s'.g.isReadable = false ∧
+      ((k = buf.length ∧ 3 ≤ s'.e.stage ∧ s'.g.lastError = .none ∧ s'.g.pendingSend = []) ∨ k = 0) := by
+  have hle : s.g.lastError ≠ .wantWrite := by
+    have h6 : (nf s).g.lastError = .none ∨ (nf s).g.lastError = .wantRead := hi.2.2.2.2.2.1
+    have : (nf s).g.lastError = s.g.lastError := rfl
+    rw [this] at h6
+    rcases h6 with h | h <;> rw [h] <;> simp
+  have hfl : Fl r (prepWritable s) := ⟨rfl, fun h => by
+    have : s.g.isReadable = true := h
+    rw [hir] at this; cases this⟩
+  obtain ⟨a, s1, hL, hR, _⟩ := (tlsWrite_fl C r (engine P) (prepWritable s) buf hfl).cases
+  have hnf : nf (prepWritable s) = setTimeout (nf s) 0 := by
+    rcases s with ⟨⟨le, ps, rt, ir, iw, dss, pe, wire, bw, ec⟩, e, w⟩
+    simp only at hle
+    simp [nf, prepWritable, setTimeout, hle]
+  rw [hnf] at hR
+  obtain ⟨k, s2, e2, side2, t2, g2, tight2, hk⟩ := tlsWrite_hs C hC P r buf hb (nf s) hi
+  rw [e2] at hR
+  obtain ⟨rfl, hs2⟩ := Prod.mk.inj hR
+  have hir1 : s1.g.isReadable = false := by
+    have := tlsWrite_ir C (chanWorld r) (engine P) (prepWritable s) buf hir
+    rw [hL] at this; exact this
+  refine ⟨k, s1, hL, by rw [← hs2]; exact side2, ?_, ?_, by rw [← hs2]; exact tight2, hir1, ?_⟩
+  · have : Tr P r s.e s.w (nf s1).e (nf s1).w := by rw [← hs2]; exact t2
+    exact this
+  · intro h
+    have : work P (nf s1).e < work P s.e := by rw [← hs2]; exact g2 h
+    exact this
+  · rcases hk with ⟨k1, k2, k3, k4⟩ | hk
+    · left
+      refine ⟨k1, ?_, ?_, ?_⟩
+      · have : 3 ≤ (nf s1).e.stage := by rw [← hs2]; exact k2
+        exact this
+      · have : (nf s1).g.lastError = .none := by rw [← hs2]; exact k3
+        exact this
+      · have : (nf s1).g.pendingSend = [] := by rw [← hs2]; exact k4
+        exact this
+    · exact Or.inr hk
+
 end SockModel.Hs
